@@ -430,7 +430,11 @@ def reject(rep, ex: Explorer, grammar):
 
     summ = {"parser.CKBLexer.CKBLexer": opaque_cls("CKBLexer"), "parser.CKBParser.CKBParser": opaque_cls("CKBParser"),
             f"{VIS}": opaque_cls("myVisitor")}
-    models = {"antlr4.InputStream": lambda I, a, k, n: I.alloc(HOpaque("InputStream")),
+    def _input_stream(I, a, k, n):
+        I.log("input.stream", n, arg=a[0] if a else None)
+        return I.alloc(HOpaque("InputStream"))
+
+    models = {"antlr4.InputStream": _input_stream,
               "antlr4.CommonTokenStream": lambda I, a, k, n: _cts(I, a, n)}
 
     def _cts(I, a, n):
@@ -474,6 +478,18 @@ def reject(rep, ex: Explorer, grammar):
                 continue
             n_entry += 1
             ei, eev = entries[0]
+            # REJECT.input: the lexer reads the caller's text itself
+            for ev in evs:
+                if ev.kind == "input.stream":
+                    a = ev.arg
+                    same = isinstance(a, Sym) and a.label == "text"
+                    if same:
+                        rep.ok("REJECT.input", f"{site}:{ev.node.lineno}", "text handed to the lexer", "the lexer reads the caller's text unchanged")
+                    elif any(m in repr(desc(a)) for m in ("'join'", "'replace'", "'split'", "'translate'", "'lower'", "'upper'")) and "text" in repr(desc(a)):
+                        rep.violation("REJECT.input", f"{site}:{ev.node.lineno}", "text handed to the lexer", "the lexer reads the caller's text unchanged: rewriting it first (dropping or replacing characters) makes malformed input well formed",
+                                      extracted=repr(a)[:160], required="the text argument itself", function=site)
+                    else:
+                        raise AnalysisError(f"{site}: cannot relate the lexer's input {a!r} to the text argument")
             for typ in ("CKBLexer", "CKBParser"):
                 rem = [i for i, ev in calls if ev.typ == typ and ev.method == "removeErrorListeners"]
                 add = [i for i, ev in calls if ev.typ == typ and ev.method == "addErrorListener" and ev.args and isinstance(ev.args[0], Ref) and isinstance(p.state.heap.get(ev.args[0].oid), HObj) and p.state.heap[ev.args[0].oid].cls.endswith("_ThrowingErrorListener")]
